@@ -47,7 +47,7 @@ COMPONENTS = {
 PROBES = [
     "chunked_on_after_passing_break", "next_chunk_at_end_of_data", "mode_toggle_with_cached_break",
     "slice_of_slice", "slice_in_chunked_parent", "overread_inside_integer_at_break",
-    "returned_array_looked_at_again", "two_reader_threads_interleaved", "length_of_a_subclass_type", "next_chunk_outside_chunked_mode", "slice_negative_argument", "next_chunk_moves_backwards",
+    "operation_not_followed_by_a_look_at_the_state", "returned_array_looked_at_again", "two_reader_threads_interleaved", "length_of_a_subclass_type", "next_chunk_outside_chunked_mode", "slice_negative_argument", "next_chunk_moves_backwards",
     "exhausted_read",
 ]
 FAULT_KINDS = ["preemption_between_lines", "end_of_chunk_mid_read", "end_of_data_mid_read"]
@@ -113,6 +113,10 @@ def generate(streams, tier):
             else:
                 ops.append([who, op])
     plan = {"data": data, "ops": ops, "buffer": rng.choice(["bytes", "bytes", "bytearray", "memoryview", "window"])}
+    if rng.random() < 0.25:
+        # the harness only looks at what the operations return; position and remaining are looked at when all is done
+        # (looking after every operation could itself repair lazily computed state)
+        plan["blind"] = True
     if rng.random() < 0.02:
         # two caller threads, each with a reader of its own over its own copy of the data (sim/interleave.py)
         plan["interleave"] = [rng.randrange(1, 9) for _ in range(rng.randrange(4, 80))]
@@ -313,7 +317,10 @@ def execute(plan, env):
                  f"step {step}: {name}{tuple(op[2:])} returned {got!r}, model {want!r} "
                  f"(data={list(m.data)}, reader#{who})", step)
             break
-        check_all(step, name)
+        if not plan.get("blind") or step == len(plan["ops"]) - 1:
+            check_all(step, name)
+        else:
+            res.count("probe.operation_not_followed_by_a_look_at_the_state")
         if res.violation:
             break
     if res.violation is None:
